@@ -178,7 +178,7 @@ func (e *Env) lockStruct(pkg *packages.Package, tn *types.TypeName, st *types.St
 			fmt.Sprintf("field %s.%s is written after construction (%v are); this %s happens without %s held: concurrent callers sharing the value race on it", tn.Name(), a.field.Name(), names, kind, mu.Name()))
 	}
 	e.Run.Analysed("guarded field accesses", len(accesses))
-	e.Run.Floor("R-LOCK", "accesses to fields of "+tn.Name(), len(accesses), 4)
+	e.Run.Floor("R-LOCK", "accesses to fields of "+tn.Name(), len(accesses), 2)
 }
 
 func calleeFunc(info *types.Info, call *ast.CallExpr) *types.Func {
@@ -341,7 +341,7 @@ func (e *Env) RGlobals() {
 		}
 	}
 	e.Run.Analysed("uses of package-level variables", n)
-	e.Run.Floor("R-GLOBAL", "uses of package-level variables", n, 6)
+	e.Run.Floor("R-GLOBAL", "uses of package-level variables", n, 3)
 }
 
 func globalUseIsWrite(info *types.Info, stack []ast.Node) (bool, string) {
